@@ -313,7 +313,7 @@ def gen_program(rng, size, mode="degrees"):
                 continue
             if r < 0.16 and state["nvar"] < 5 and depth == 0:
                 nm = f"v{state['nvar']}"; state["nvar"] += 1
-                e = gen_expr(rng, 2, scope) if rng.random() < 0.8 else None
+                e = gen_expr(rng, 2, scope) if (rng.random() < 0.8 or mode == "values") else None   # values mode: always initialised (known finding C06 uninitialised:*)
                 if mode == "values" and rng.random() < 0.75:
                     e = const_expr(rng, rng.choice([0, 1, 1, 2]), [v for v in scope["scalars"] if v in state.get("consts", ())])
                     state.setdefault("consts", set()).add(nm)
@@ -497,6 +497,11 @@ def fixed_value_programs():
         ("operators:power", P_([("var", [0], "v0", ("bin", "**", 2, 5)), I(eq("v0", 32))])),
         ("call:constant-argument", P_([("var", [0], "v0", ("call", "sq", 3)), I(eq("v0", 9))])),
         ("ternary:on-parameter", P_([("var", [0], "v0", ("?:", eq("n", 0), 1, 2)), I(eq("v0", 1))])),
+        # a variable declared without an initial value holds 0 on the paths that do not assign it
+        ("uninitialised:if-join", P_([("var", [0], "v0", None), I(eq("n", 0), [("set", [0], "v0", "=", 1)]), I(eq("v0", 1))])),
+        ("uninitialised:loop-zero-trip", P_([("var", [0], "v0", None), ("for", [0], "i", "n", [("set", [0], "v0", "=", 7)]), I(eq("v0", 7))])),
+        ("uninitialised:both-branches", P_([("var", [0], "v0", None), I(eq("n", 0), [("set", [0], "v0", "=", 1)], [("set", [0], "v0", "=", 1)]), I(eq("v0", 1))])),
+        ("initialised:if-join", P_([("var", [0], "v0", 0), I(eq("n", 0), [("set", [0], "v0", "=", 1)]), I(eq("v0", 1))])),
     ]
 
 
